@@ -21,7 +21,7 @@ try:
         v["checks"][f"{c}:quick"] = dict(exit=r.returncode, what=[l.strip()[:220] for l in r.stdout.splitlines() if l.startswith("  what:")][:2])
     meta = json.load(open(f"{sd}/meta.json"))
     old = meta.get("verif", {})
-    for k in ("pinned_suite_green_with_change", "pinned_suite_tail"):
+    for k in ("pinned_suite_green_with_change", "pinned_suite_tail", "first_evaluation_before_strengthening"):
         if k in old:
             v[k] = old[k]
     meta["verif"] = v
